@@ -721,7 +721,21 @@ impl Case {
             IndexSpelling::QueryOther(q) => q != index,
             IndexSpelling::PropertyNumber | IndexSpelling::PropertyNotNumeric | IndexSpelling::PropertyMissing => true,
           };
-          if malformed {
+          // An entry whose id query and property name two different indices has no single "its index"; but when the
+          // bitmap holds BOTH of them the credential is revoked under either reading, so acceptance is a violation.
+          let both_readings_revoked = match spelling {
+            IndexSpelling::QueryOther(q) if q != index => issuer_doc
+              .and_then(|d| self.service_set(d, service))
+              .is_some_and(|set| set.contains(&q) && set.contains(&index)),
+            _ => false,
+          };
+          if both_readings_revoked {
+            (
+              Tri::False,
+              "accepted-although-revoked-under-both-index-readings",
+              &["Revoked", "InvalidStatus", "ServiceLookupError"],
+            )
+          } else if malformed {
             // no well-defined index: the statement does not say
             (Tri::Open, "", &["InvalidStatus", "ServiceLookupError"])
           } else {
@@ -1395,6 +1409,13 @@ const DEVIATIONS: &[Deviation] = &[
   |c| c.subject_has_id = false,
   |c| c.rev = vec![7, 9],
   |c| c.rev2 = vec![9],
+  // the id query names another index than the property, and the bitmap holds both of them
+  |c| {
+    if let StatusSel::Bitmap { index, spelling, .. } = &mut c.status {
+      c.rev = vec![3, *index];
+      *spelling = IndexSpelling::QueryOther(3)
+    }
+  },
   |c| {
     if let StatusSel::Bitmap { service, .. } = &mut c.status {
       *service = ServiceSel::Rev2
